@@ -31,6 +31,8 @@ ASSUMPTIONS = [
 ]
 
 T4_REGEXES = [r"r\.a$", r"r\.a", r"r\.a$|r\.b$", r"r\.[bc]$", r".*\.x$", r"r\.(b|c)", r"r\.a\..*", r"zzz"]
+# on T4P = r{a{x},ab,c}: a plain escaped name is a prefix of a sibling's name, and plain prefixes end in the middle of a name
+T4P_REGEXES = [r"r\.a", r"r\.ab", r"r\.a$", r"r\.", r"r", r"r.a", r"r\.a\.x", r"r\.a\.", r"r\.c|r\.a", r"r\.b"]
 
 
 def mk(v, d, e, subj, obj):
@@ -114,8 +116,9 @@ def exh_shard(arg, stt, deadline) -> None:
     tkey, shard, nshards, max_edges = arg
     tree = RS.TREES[tkey]
     cand = M.candidate_edges(tree, allow_root_target=False, root=tree[0])
-    exps = {rx: expand_regex(tree, rx) for rx in T4_REGEXES}
-    others = [{"kind": "named", "names": [n]} for n in ("r.a.x", "r.b", "r.c")]
+    regexes = T4P_REGEXES if tkey == "T4P" else T4_REGEXES
+    exps = {rx: expand_regex(tree, rx) for rx in regexes}
+    others = [{"kind": "named", "names": [n]} for n in (("r.a.x", "r.ab", "r.c") if tkey == "T4P" else ("r.a.x", "r.b", "r.c"))]
     i = 0
     for imports in RS.graphs_of(cand, shard, nshards, max_edges):
         if RS.timed_out(deadline, i, 4):
@@ -125,7 +128,7 @@ def exh_shard(arg, stt, deadline) -> None:
         ev = make_evaluable(tree, imports)
         warm = RS.T4_DECOY if i % 4 == 2 else None
         with warmup(warm):
-            for rx in T4_REGEXES:
+            for rx in regexes:
                 for side in ("subj", "obj"):
                     for other in others:
                         for shape in RS.SHAPES:
@@ -259,6 +262,9 @@ def run(ctx) -> None:
     max_edges = 4 if ctx.tier == "quick" else None
     ctx.exhaustive("T4-regex-vs-expansion", MOD, "exh_shard", [("T4", i, nsh, max_edges) for i in range(nsh)],
                    f"T4: import relations ({'<= 4 edges' if max_edges else 'all 2048'}) x {len(T4_REGEXES)} regexes x 2 sides x 3 opposite names x 12 shapes")
+    ctx.exhaustive("T4P-plain-name-and-prefix-regexes", MOD, "exh_shard", [("T4P", i, 16, 2 if ctx.tier == "quick" else 4) for i in range(16)],
+                   f"T4P = r{{a{{x}},ab,c}}: import relations with <= {2 if ctx.tier == 'quick' else 4} edges x {len(T4P_REGEXES)} regexes that spell a module name or a prefix of one "
+                   "(r\\.a also matches r.ab; r\\.b matches nothing) x 2 sides x 3 opposite names x 12 shapes")
     bk = [(("named", "named"), ("sub", "sub")), (("named", "sub"), ("sub", "named"))]
     be = 2 if ctx.tier == "quick" else 4
     ctx.exhaustive("T4-batches-vs-single-subjects", MOD, "batch_shard", [(k, i, 16, be) for k in bk for i in range(16)],
